@@ -37,7 +37,7 @@ ASSUMPTIONS = ["not generated because the statement is silent: tabs / other non-
                "files reducing to an empty sequence, a first header appearing after sequence lines (the reference refuses to judge these: DISCARDED)",
                "lower-case letters count as foreign characters (they are today)",
                "open handles after a call are counted as a probe, not a verdict (the statement does not mention handles)"]
-PROBES = ["later_file_in_same_process", "same_file_read_again", "path_rewritten_with_new_content", "file_larger_than_io_buffer", "torn_file", "torn_inside_header", "crlf", "short_reads_1_byte", "chunk_splits_crlf", "eio_fired_before_eof", "eio_scheduled_past_eof",
+PROBES = ["second_object_from_same_file_after_mutator", "later_file_in_same_process", "same_file_read_again", "path_rewritten_with_new_content", "file_larger_than_io_buffer", "torn_file", "torn_inside_header", "crlf", "short_reads_1_byte", "chunk_splits_crlf", "eio_fired_before_eof", "eio_scheduled_past_eof",
           "open_error", "corrupt_second_header", "corrupt_second_star", "corrupt_nonfinal_star", "corrupt_foreign_char",
           "corrupt_invalid_utf8", "valid_with_star", "numbered_layout", "panel_compared", "permutants_constructor",
           "no_final_newline", "reference_rejects", "reference_accepts"]
@@ -163,11 +163,10 @@ def corrupt(rnd, text, meta):
     if kind in ("second_star", "nonfinal_star"):
         a, b = rnd.choice(spans)
         # position strictly inside the residues: put the star before some residue character
-        cands = [i for i in range(a, b) if text[i] in AA]
-        if not cands:
-            meta["corruption"] = "none"
-            return data
-        i = rnd.choice(cands)
+        if rnd.random() < 0.3:
+            a, b = spans[-1]                  # near the end: next to a final star, or after the last residue of a starless file
+        cands = [i for i in range(a, b + 1) if i == b or text[i] in AA or text[i] == "*"]
+        i = rnd.choice(cands) if rnd.random() < 0.7 else b
         text = text[:i] + "*" + text[i:]
         return text.encode("utf-8")
     a, b = rnd.choice(spans)
@@ -229,8 +228,11 @@ def gen_step(rnd, frnd, big=False):
         else:
             fault["open"] = frnd.choice(("ENOENT", "EACCES", "EISDIR"))
     api = rnd.choice(("parser", "parser", "SP", "SP", "perm"))
-    return {"file": data.decode("latin-1"), "torn_at": torn, "fault": fault, "api": api, "meta": meta,
-            "path": rnd.choice((PATH, PATH, "/sim/other.txt"))}
+    st = {"file": data.decode("latin-1"), "torn_at": torn, "fault": fault, "api": api, "meta": meta,
+          "path": rnd.choice((PATH, PATH, "/sim/other.txt"))}
+    if api == "SP" and rnd.random() < 0.35:
+        st["twin"] = {"mut": rnd.choice(("sites", "palette"))}
+    return st
 
 
 def gen_plan(streams, tier):
@@ -244,6 +246,8 @@ def gen_plan(streams, tier):
             prev = rnd.choice(steps)
             st = {"reuse": True, "path": prev["path"], "fault": {"chunks": rnd.choice((None, [1], [3, 2])), "eio_at": None, "open": None},
                   "api": rnd.choice(("parser", "SP", "perm")), "meta": {"reuse": True}}
+            if st["api"] == "SP" and rnd.random() < 0.5:
+                st["twin"] = {"mut": rnd.choice(("sites", "palette"))}
         else:
             st = gen_step(rnd, frnd, big=(k == 0 and rnd.random() < 0.04))
         steps.append(st)
@@ -263,6 +267,9 @@ def corpus():
     mk("plain_crlf_star", "ACDEFGHIKL\r\nMNPQRSTVWY*\r\n", fault={"chunks": [1], "eio_at": None, "open": None})
     mk("second_header", ">a\nACDEF\n>b\nGHIKL\n")
     mk("two_stars", "ACDEF*\nGHIKL*\n")
+    mk("two_stars_at_the_end", "ACDEF\nGHIKL**\n")
+    mk("two_stars_at_the_end_own_lines", ">h\nACDEF\nGHIKL*\n*\n")
+    mk("two_stars_at_the_end_spaced", "ACDEF GHIKL* *\n")
     mk("nonfinal_star", "ACD*EF\n")
     mk("foreign_lower", "ACDEf\n")
     mk("foreign_X", ">h\nACDXEF\n")
@@ -271,6 +278,8 @@ def corpus():
     mk("missing_file", body, fault={"chunks": None, "eio_at": None, "open": "ENOENT"})
     mk("torn_mid_line", ">h\n" + body, torn_at=25)
     mk("sp_constructor_panel", ">h\n" + body, api="SP", fault={"chunks": [3, 1, 2], "eio_at": None, "open": None})
+    mk("two_objects_same_file_sites", ">h\n" + body, api="SP", twin={"mut": "sites"})
+    mk("two_objects_same_file_palette", body, api="SP", twin={"mut": "palette"})
     mk("perm_constructor", body, api="perm")
     mk("invalid_utf8", "ACDEF\n".encode().decode("latin-1") + "\xff" + "GHI\n")
 
@@ -356,16 +365,24 @@ def execute(plan, ctx):
     import localcider.backend.seqfileparser as sfp
     import localcider.sequenceParameters as spmod
     spmod.print = lambda *a, **k: None
+    import tempfile
+    import shutil
     fs = SimFS(ctx)
     sfp.open = fs.open
     steps = plan.get("steps")
     if steps is None:                      # single-file plan (older replay files)
         steps = [dict(plan, path=PATH)]
     rnd = ctx.streams.stream("exec")
-    for k, step in enumerate(steps):
-        do_step(k, step, fs, ctx, rnd, sfp)
-        if k:
-            ctx.probe("later_file_in_same_process")
+    # the simulated disk is mirrored into a real scratch directory so that metadata calls on the
+    # path (os.stat, os.path.exists) behave as on a real disk; reads still go through the seam
+    fs.root = tempfile.mkdtemp(prefix="dst_c14_")
+    try:
+        for k, step in enumerate(steps):
+            do_step(k, step, fs, ctx, rnd, sfp)
+            if k:
+                ctx.probe("later_file_in_same_process")
+    finally:
+        shutil.rmtree(fs.root, ignore_errors=True)
     ctx.count("fs_events", fs.nevents)
 
 
@@ -374,7 +391,7 @@ def do_step(k, plan, fs, ctx, rnd, sfp):
     from localcider.sequencePermutants import SequencePermutants
     meta = plan.get("meta", {})
     fault = plan["fault"]
-    PATHK = plan.get("path", PATH)
+    PATHK = fs.root + plan.get("path", PATH)[len("/sim"):]
     fs.faults = []
     fs.chunks = None
     fs.open_faults = {}
@@ -399,6 +416,7 @@ def do_step(k, plan, fs, ctx, rnd, sfp):
             ctx.probe("torn_file")
         fs.restart()
         fs.faults = []
+        fs.mirror(PATHK)
     durable = bytes(fs.files.get(PATHK, b""))
     ctx.log.emit("durable", k=k, n=len(durable), torn=plan.get("torn_at"))
     if len(durable) > 8192:
@@ -442,12 +460,14 @@ def do_step(k, plan, fs, ctx, rnd, sfp):
         ctx.nontrivial = True
     path = PATHK
     if fault.get("open") == "ENOENT":
-        path = "/sim/missing.fasta"
+        path = fs.root + "/missing.fasta"
         ctx.fault("fs_open_ENOENT")
         ctx.probe("open_error")
     elif fault.get("open") == "EISDIR":
-        path = "/sim/dir"
+        path = fs.root + "/dir"
         fs.dirs.add(path)
+        import os as _os
+        _os.makedirs(path, exist_ok=True)
         ctx.fault("fs_open_EISDIR")
         ctx.probe("open_error")
     elif fault.get("open") == "EACCES":
@@ -500,7 +520,7 @@ def do_step(k, plan, fs, ctx, rnd, sfp):
 
     api = plan["api"]
     val, err, fired = attempt(api)
-    desc = "file #%d at %s of %d bytes (%s%s), read plan %s" % (k + 1, PATHK, len(durable), c or "layout as generated", ", torn at %s" % plan.get("torn_at") if plan.get("torn_at") is not None else "", cjson(fault))
+    desc = "file #%d at %s of %d bytes (%s%s), read plan %s" % (k + 1, fs.show(PATHK), len(durable), c or "layout as generated", ", torn at %s" % plan.get("torn_at") if plan.get("torn_at") is not None else "", cjson(fault))
     if err is None:
         got = residues_of(api, val)
         if verdict == "reject" or fault.get("open"):
@@ -514,6 +534,32 @@ def do_step(k, plan, fs, ctx, rnd, sfp):
     else:
         if want_ok and not fired:
             raise Violation("valid_file_rejected", "rejected", "%s: %s raised %r on a valid file holding %r..." % (desc, api, err, ref_parse(durable)[1][:50]))
+    # several objects from the same unchanged file, one of them modified: each must still answer like a
+    # string-built object that received the same calls
+    if err is None and api == "SP" and plan.get("twin"):
+        tw = plan["twin"]
+        fs.faults = []
+        s_ref = ref_parse(durable)[1]
+        sty = [j + 1 for j, ch in enumerate(s_ref) if ch in "STY"]
+        sites = sty[:: max(1, len(sty) // 3)][:3] if sty else [1]
+        pal = {a: "red" for a in AA}
+        string_a = SequenceParameters(s_ref)
+        for o in (val, string_a):
+            if tw.get("mut") == "sites":
+                o.set_phosphosites(list(sites))
+            else:
+                o.set_HTMLColorResiduePalette(dict(pal))
+        other = SequenceParameters(sequenceFile=path)
+        string_b = SequenceParameters(s_ref)
+        ctx.probe("second_object_from_same_file_after_mutator")
+        for label, x, y in (("the modified object", val, string_a), ("a second object built from the same file afterwards", other, string_b)):
+            for name in ("get_phosphosites", "get_phosphosequence", "get_HTMLColorString", "get_sequence", "get_kappa_after_phosphorylation" if len(s_ref) <= 150 else "get_length"):
+                a = safe_call(x, name)
+                b = safe_call(y, name)
+                if cjson(canon(a)) != cjson(canon(b)):
+                    raise Violation("file_object_differs", "twin:" + name, "%s: %s() on %s gives %s, on the object built from the string %s" % (
+                        desc, name, label, cjson(canon(a))[:120], cjson(canon(b))[:120]))
+        val = other
     # panel: an object built from the file answers like an object built from the string
     if err is None and api == "SP":
         refobj = SequenceParameters(ref_parse(durable)[1])
